@@ -62,6 +62,9 @@ def make_world(model, order=None):
                 mk(n, lambda n=n: Person(name=n))
             else:
                 mk(n, lambda n=n: Company(name=n))
+    elif model == "geo":
+        for n in ("r1", "r2", "r3", "r4"):
+            mk(n, lambda n=n: (sgmodel.GCity if n in ("r1", "r3") else sgmodel.GRegion)(name=n))
     else:
         for n in "abcd":
             mk(n, lambda n=n: FPerson(name=n))
@@ -71,6 +74,8 @@ def make_world(model, order=None):
 def props_of(model, name, obj):
     if model == "univ":
         return UNIV_PROPS[type(obj).__name__]
+    if model == "geo":
+        return ["located_in", "directly_in"]
     return FAMILY_PROPS
 
 
